@@ -412,18 +412,19 @@ def match_known(known, run, case, failure):
     for k in known:
         if k.get("status") != "known":
             continue
-        m = k.get("match", {})
-        if m.get("engine") and m["engine"] != run.engine:
-            continue
-        if m.get("kind") and m["kind"] != kind:
-            continue
-        if m.get("op") and not re.match(m["op"], op):
-            continue
-        if m.get("msg") and not re.search(m["msg"], msg):
-            continue
-        if m.get("history") and not re.search(m["history"], "\n".join(case["ops"][: idx + 1])):
-            continue
-        return k
+        ms = k.get("match", {})
+        for m in (ms if isinstance(ms, list) else [ms]):
+            if m.get("engine") and m["engine"] != run.engine:
+                continue
+            if m.get("kind") and m["kind"] != kind:
+                continue
+            if m.get("op") and not re.match(m["op"], op):
+                continue
+            if m.get("msg") and not re.search(m["msg"], msg):
+                continue
+            if m.get("history") and not re.search(m["history"], "\n".join(case["ops"][: idx + 1])):
+                continue
+            return k
     return None
 
 
